@@ -129,24 +129,15 @@ theorem hits_ids (fault : Option EventId) (es : List Event) :
     C02.hits fault es = hitsIds fault (es.map (·.id)) := by
   simp [C02.hits, hitsIds, List.any_map, Function.comp_def]
 
-theorem participates_toAttr (fields : List Field) :
-    (fields.map toAttr).filter participates = fields.map toAttr := by
+theorem participates_toAttr (kw : Bool) (fields : List Field) :
+    (fields.map (toAttr kw)).filter participates = fields.map (toAttr kw) := by
   apply List.filter_eq_self.2
   intro a ha
   obtain ⟨f, _, rfl⟩ := List.mem_map.1 ha
   simp [participates, toAttr]
 
-theorem attrEvents_ids (A : List Attr) (c : Call) (fields : List Field) :
-    ((fields.map toAttr).flatMap (C02.attrEvents A c)).map (·.id) = convPlan fields := by
-  induction fields with
-  | nil => rfl
-  | cons f fs ih =>
-    simp only [List.map_cons, List.flatMap_cons, List.map_append, ih, convPlan, List.filter_cons]
-    cases hc : f.conv <;> simp [C02.attrEvents, toAttr, hc, C02.ev, convId]
-    all_goals (split <;> simp)
-
-theorem validatorEvents_ids_gen (g : Attr → List Val) (fields : List Field) :
-    ((fields.map toAttr).flatMap (fun a =>
+theorem validatorEvents_ids_gen (kw : Bool) (g : Attr → List Val) (fields : List Field) :
+    ((fields.map (toAttr kw)).flatMap (fun a =>
         (List.range a.validators).map (fun i => C02.ev "validator" a.name i (g a)))).map (·.id)
       = validatorPlan fields := by
   unfold validatorPlan
@@ -156,24 +147,127 @@ theorem validatorEvents_ids_gen (g : Attr → List Val) (fields : List Field) :
     simp only [List.map_cons, List.flatMap_cons, List.map_append, ih]
     simp [toAttr, C02.ev, valId, Function.comp_def]
 
-theorem validatorEvents_ids (c : Call) (fields : List Field) :
-    (C02.validatorEventsOf (fields.map toAttr) c).map (·.id) = validatorPlan fields := by
+theorem validatorEvents_ids (kw : Bool) (c : Call) (fields : List Field) :
+    (C02.validatorEventsOf (fields.map (toAttr kw)) c).map (·.id) = validatorPlan fields := by
   unfold C02.validatorEventsOf
   rw [participates_toAttr]
-  exact validatorEvents_ids_gen _ fields
+  exact validatorEvents_ids_gen kw _ fields
+
+/-- the callbacks of a construction that are not validators and run before them: the pre-init hook, then
+    per field its factory (argument left out) and its converter — as the initializer specification lists them -/
+def beforePart (cls : Cls) : List EventId :=
+  (C02.preEvents (initCase cls true none).eff (initCase cls true none).call ++
+    ((initCase cls true none).eff.attrs.filter participates).flatMap
+      (C02.attrEvents (initCase cls true none).eff.attrs (initCase cls true none).call)).map (·.id)
+
+/-- the post-init hook -/
+def afterPart (cls : Cls) : List EventId :=
+  if cls.post then [{ kind := "post", field := "", idx := 0 }] else []
+
+/-- the shape of a construction: hooks, factories and converters do not depend on the switch; the
+    validators sit between them and the post-init hook, iff enabled -/
+theorem constructPlan_struct (cls : Cls) (run : Bool) :
+    constructPlan cls run = beforePart cls ++ (if run then validatorPlan cls.fields else []) ++ afterPart cls := by
+  unfold constructPlan C02.expectedTrace beforePart afterPart
+  have h1 : (initCase cls run none).eff.attrs = cls.fields.map (toAttr cls.kwOnly) := rfl
+  have h1' : (initCase cls true none).eff.attrs = cls.fields.map (toAttr cls.kwOnly) := rfl
+  have h2 : (initCase cls run none).eff.cfg.runValidators = run := rfl
+  have h3 : (initCase cls run none).eff.cfg.post = cls.post := rfl
+  have h4 : C02.preEvents (initCase cls run none).eff (initCase cls run none).call
+      = C02.preEvents (initCase cls true none).eff (initCase cls true none).call := rfl
+  have h5 : (initCase cls run none).call = (initCase cls true none).call := rfl
+  rw [h1, h1', h2, h3, h4, h5]
+  simp only [List.map_append]
+  congr 1
+  · congr 1
+    cases run
+    · simp
+    · simp [validatorEvents_ids]
+  · cases cls.post <;> simp [C02.ev]
+
+theorem beforePart_kind (cls : Cls) : ∀ e ∈ beforePart cls, e.kind = "pre" ∨ e.kind = "factory" ∨ e.kind = "conv" := by
+  intro e he
+  unfold beforePart at he
+  obtain ⟨ev, hev, rfl⟩ := List.mem_map.1 he
+  rcases List.mem_append.1 hev with h | h
+  · left
+    unfold C02.preEvents at h
+    split at h
+    · cases h
+    · simp only [List.mem_singleton] at h; simp [h, C02.ev]
+    · simp only [List.mem_singleton] at h; simp [h, C02.ev]
+  · right
+    obtain ⟨a, _, ha⟩ := List.mem_flatMap.1 h
+    exact (C02.C02_attr_events_named _ _ _ ev ha).2
+
+theorem afterPart_kind (cls : Cls) : ∀ e ∈ afterPart cls, e.kind = "post" := by
+  intro e he
+  unfold afterPart at he
+  split at he
+  · simp only [List.mem_singleton] at he; simp [he]
+  · cases he
+
+/-! ### the callbacks before the validators, spelled out (distinct field names) -/
+
+def preId : EventId := { kind := "pre", field := "", idx := 0 }
+def factoryId (f : Field) : EventId := { kind := "factory", field := f.name, idx := 0 }
+
+theorem lookup_none_of_not_mem (n : String) (l : List (String × Val)) (h : ∀ kv ∈ l, kv.1 ≠ n) :
+    lookup n l = none := by
+  induction l with
+  | nil => rfl
+  | cons kv l ih =>
+    obtain ⟨k, v⟩ := kv
+    have hk : k ≠ n := h (k, v) List.mem_cons_self
+    simp only [lookup, beq_iff_eq, hk, if_false]
+    exact ih (fun kv hkv => h kv (List.mem_cons_of_mem _ hkv))
+
+theorem passed_factory_none (cls : Cls) (hn : (cls.fields.map (·.name)).Nodup) (f : Field) (hf : f ∈ cls.fields)
+    (hfac : f.factory = true) (ps : List Param) :
+    passed ps (initCase cls true none).call f.name = none := by
+  unfold passed
+  have hpos : (initCase cls true none).call.pos = [] := rfl
+  simp only [hpos, List.zip_nil_right, lookup]
+  apply lookup_none_of_not_mem
+  intro kv hkv
+  have hkw : (initCase cls true none).call.kw = (cls.fields.filter (!·.factory)).map (fun f => (f.name, "v." ++ f.name)) := rfl
+  rw [hkw] at hkv
+  obtain ⟨g, hg, rfl⟩ := List.mem_map.1 hkv
+  have hg' := List.mem_filter.1 hg
+  intro hname
+  have : g = f := nodup_map_inj (·.name) cls.fields hn g hg'.1 f hf hname
+  subst this
+  simp [hfac] at hg'
+
+theorem attrEvents_explicit (cls : Cls) (hn : (cls.fields.map (·.name)).Nodup) (f : Field) (hf : f ∈ cls.fields)
+    (A : List Attr) :
+    (C02.attrEvents A (initCase cls true none).call (toAttr cls.kwOnly f)).map (·.id)
+      = (if f.factory then [factoryId f] else []) ++ (if f.conv then [convId f] else []) := by
+  unfold C02.attrEvents
+  cases hfac : f.factory
+  · cases hc : f.conv <;> simp [toAttr, hfac, hc, C02.ev, convId] <;> split <;> simp
+  · have hp := passed_factory_none cls hn f hf hfac (params A)
+    cases hc : f.conv <;> simp [toAttr, hfac, hc, C02.ev, convId, factoryId, hp]
+
+theorem beforePart_explicit (cls : Cls) (hn : (cls.fields.map (·.name)).Nodup) :
+    beforePart cls = (if cls.pre = .none then [] else [preId]) ++
+      cls.fields.flatMap (fun f => (if f.factory then [factoryId f] else []) ++ (if f.conv then [convId f] else [])) := by
+  unfold beforePart
+  have h1 : (initCase cls true none).eff.attrs = cls.fields.map (toAttr cls.kwOnly) := rfl
+  rw [h1, participates_toAttr, List.map_append]
+  congr 1
+  · unfold C02.preEvents
+    have : (initCase cls true none).eff.cfg.pre = cls.pre := rfl
+    rw [this]
+    cases cls.pre <;> simp [C02.ev, preId]
+  · rw [List.map_flatMap, List.flatMap_map]
+    apply flatMap_congr'
+    intro f hf
+    exact attrEvents_explicit cls hn f hf _
 
 theorem expectedTrace_ids (cls : Cls) (run : Bool) (fault : Option EventId) :
     (C02.expectedTrace (initCase cls run fault).eff (initCase cls run fault).call).map (·.id)
-      = constructPlan cls run := by
-  unfold C02.expectedTrace constructPlan
-  have h1 : (initCase cls run fault).eff.attrs = cls.fields.map toAttr := rfl
-  have h2 : (initCase cls run fault).eff.cfg.runValidators = run := rfl
-  have h3 : (initCase cls run fault).eff.cfg.post = false := rfl
-  have h4 : C02.preEvents (initCase cls run fault).eff (initCase cls run fault).call = [] := rfl
-  rw [h1, h2, h3, h4, participates_toAttr]
-  simp only [List.nil_append, List.map_append, attrEvents_ids, Bool.false_eq_true, if_false,
-    List.append_nil]
-  cases run <;> simp [validatorEvents_ids]
+      = constructPlan cls run := rfl
 
 /-- the callbacks a construction runs, and how it ends, for a class that is well-formed for the
     initializer model: all converters, then all validators iff the switch is on, cut after the faulty one -/
@@ -365,11 +459,6 @@ theorem validatorPlan_kind (fields : List Field) : ∀ e ∈ validatorPlan field
   intro e he
   obtain ⟨f, _, hf⟩ := List.mem_flatMap.1 he
   obtain ⟨i, _, rfl⟩ := List.mem_map.1 hf
-  rfl
-
-theorem convPlan_kind (fields : List Field) : ∀ e ∈ convPlan fields, e.kind = "conv" := by
-  intro e he
-  obtain ⟨f, _, rfl⟩ := List.mem_map.1 he
   rfl
 
 def isValidator (e : EventId) : Bool := e.kind == "validator"
